@@ -42,7 +42,7 @@ theorem guarded_sites_checked : guardedOK = true := by decide +kernel
 
 /-- how the sites are accounted for: (modelled — flag / cross-function flag / model branch —,
 safe by extracted guard (checked above), safe by prose argument: the trusted classifications) -/
-theorem classification_counts : classCounts = (101, 138, 105) := by decide +kernel
+theorem classification_counts : classCounts = (101, 141, 105) := by decide +kernel
 
 /-- the session layer has exactly three statement lists that close a reply channel — completion in
 `handlePeerMsg`, completion in `handleRequest`, the expiry sweep in `Loop` —; their clean-up operations
@@ -402,7 +402,9 @@ example : (decodePubKey { Cfg.all with pubKeyLen := false } 1).isPanic = true :=
 example : (toBigInt { Cfg.all with toBigLen := false } 2).isPanic = true := by decide
 example : (qRun { Cfg.all with qloopOk := false } {} [.sig []]).2.any Out.isPanic = true := by decide
 example : (rsRun { Cfg.all with rsMake := false } (fun _ _ => true) 1 3 {} [some ⟨some [0, 0, 1], some [1, 2]⟩]).2.any Out.isPanic = true := by decide
-example : (rsRun { Cfg.all with recoverDedup := false } (fun _ _ => true) 2 3 {} [some ⟨some [0, 1, 5], some [7]⟩, some ⟨some [0, 1, 5, 0], some [7]⟩]).2.any Out.isPanic = true := by decide
+-- the same share with a trailing byte: since 2d8b40a tbls.Recover AND share.RecoverCommit keep one share per index; either guard alone suffices
+example : (rsRun { Cfg.all with recoverDedup := false, rcDedup := false } (fun _ _ => true) 2 3 {} [some ⟨some [0, 1, 5], some [7]⟩, some ⟨some [0, 1, 5, 0], some [7]⟩]).2.any Out.isPanic = true := by decide
+example : (rsRun { Cfg.all with recoverDedup := false } (fun _ _ => true) 2 3 {} [some ⟨some [0, 1, 5], some [7]⟩, some ⟨some [0, 1, 5, 0], some [7]⟩]).2.any Out.isPanic = false := by decide
 example : (rsRun Cfg.all (fun _ _ => true) 2 3 {} [none, some ⟨some [0, 1, 5], some [7]⟩, some ⟨some [0, 1, 5, 0], some [7]⟩]).2
     = [.err "nil", .ok "wait", .err "few"] := by decide
 example : (receiveID { Cfg.all with ridLen := false } (.frame (.pkg (some (.id .infinity .other)) false false))).isPanic = true := by decide
